@@ -228,12 +228,49 @@ def rule_overlay(ctx: Ctx) -> RuleResult:
         res.ok("_write_data dump", "dumps the merged mapping when a sidecar exists, else the new mapping")
     else:
         res.violation([f.qualname, "dumped value"], f"_write_data dumps {sorted(kinds) or 'something else'} instead of merged-or-new", f.relpath, d.lineno)
+    _update_writes(ctx, res)
     facts = facts_at(ctx, f, u)
     if any(t.endswith(".exists()") and truth for t, truth in facts):
         res.ok("_write_data exists branch", "merge only when the sidecar exists")
     else:
         res.violation([f.qualname, "exists branch"], "_write_data does not merge under `if <sidecar>.exists()`", f.relpath, u.lineno)
     return res
+
+
+def _update_writes(ctx: Ctx, res: RuleResult) -> None:
+    """WriteToPaths.update: every return that does not report failure (constant False / None) comes after a call that
+    reaches _write_data - an update that answers without writing drops what it was given (the read-back is then not the
+    overlay of everything written)."""
+    W = "spil.sid.pathops.write_paths._write_data"
+    f = ctx.p.function("spil.sid.pathops.write_paths.WriteToPaths.update")
+    cfg = cfg_of(f.node)
+    reach = {W}
+    changed = True
+    while changed:  # library functions from which _write_data is reached on some path (wrappers)
+        changed = False
+        for g in ctx.p.iter_functions(kinds=("library",)):
+            if g.qualname not in reach and any(t.qualname in reach for cs in ctx.cg.sites.get(g.qualname, []) for t in cs.targets):
+                if g.module is f.module and g.qualname != f.qualname:
+                    reach.add(g.qualname)
+                    changed = True
+    wnodes = [cfg.node_of(cs.node).id for cs in ctx.cg.sites.get(f.qualname, []) if any(t.qualname in reach for t in cs.targets)
+              and cfg.node_of(cs.node) is not None]
+    if not wnodes:
+        res.violation([f.qualname, "writes"], "WriteToPaths.update never reaches _write_data", f.relpath, f.node.lineno)
+        return
+    bad = 0
+    rets = _rets(f)
+    for r in rets:
+        if r.value is None or (isinstance(r.value, ast.Constant) and r.value.value in (False, None)):
+            continue
+        rn = cfg.node_of(r)
+        if rn is None or not cfg.on_all_paths(cfg.entry.id, rn.id, wnodes):
+            bad += 1
+            res.violation([f.qualname, "return without write", norm(r)[:40]],
+                          f"WriteToPaths.update: `{norm(r)[:60]}` is reachable without _write_data: the call answers (success) although "
+                          f"the data it was given was not written, so a later read is not the overlay of everything written", f.relpath, r.lineno)
+    if not bad:
+        res.ok(f"WriteToPaths.update: {len(rets)} returns", "every return that does not report failure comes after _write_data")
 
 
 def rule_sidecar(ctx: Ctx) -> RuleResult:
@@ -539,6 +576,30 @@ def rule_atomic(ctx: Ctx) -> RuleResult:
                     problems.append((n, f"`{norm(n)[:60]}` opens the sidecar for writing in place"))
                 elif isinstance(n.args[0], ast.Name) and n.args[0].id in temps:
                     writes_T.append(n)
+    # crash residue never decides the outcome: a temporary file left by an interrupted write may be removed or overwritten, but
+    # a branch taken because it exists must not raise or return ("the next set / update on the Sid succeeds")
+    def _probes_temp(e: ast.AST) -> bool:
+        for x in ast.walk(e):
+            if isinstance(x, ast.Call):
+                if isinstance(x.func, ast.Attribute) and x.func.attr in ("exists", "is_file", "stat", "lstat") \
+                        and isinstance(x.func.value, ast.Name) and x.func.value.id in temps:
+                    return True
+                if (dotted(x.func) or "") in ("os.path.exists", "os.path.isfile", "os.path.lexists", "os.stat", "os.access") and x.args \
+                        and any(isinstance(y, ast.Name) and y.id in temps for y in ast.walk(x.args[0])):
+                    return True
+        return False
+
+    probe_flags = {d.var for d in flow.all_defs if d.kind == "assign" and d.value is not None and _probes_temp(d.value)}
+    for n in own_nodes(f.node):
+        if isinstance(n, (ast.If, ast.While)) and (_probes_temp(n.test) or any(
+                isinstance(x, ast.Name) and x.id in probe_flags for x in ast.walk(n.test))):
+            exits = [x for b_ in (n.body + n.orelse) for x in ast.walk(b_) if isinstance(x, (ast.Raise, ast.Return))]
+            if exits:
+                problems.append((exits[0], f"`{norm(exits[0])[:60]}` is decided by whether the temporary file exists: a temporary file left behind by "
+                                           f"an interrupted write makes every later set / update of this Sid fail or do nothing"))
+        if isinstance(n, ast.Assert) and _probes_temp(n.test):
+            problems.append((n, "an assertion on the temporary file: a temporary file left behind by an interrupted write makes every later "
+                                "set / update of this Sid fail"))
     final = []
     for n, src, dst in renames:
         at = cfg.node_of(n)
